@@ -95,10 +95,14 @@ func TestProp(t *testing.T) {
 	env := vh.GetEnv()
 	rep := vh.NewReport("C05", "fault_enumeration")
 	rep.Rule("fault sequences over {ok,429,503,401,500,502,504,conn-drop,malformed-json,wrong-success-code,denied} injected at /validate, /profile or /refresh: block A enumerates every sequence up to the depth bound per injection point x 8 gap patterns (gaps relative to valid/grace/token/lifetime TTLs) followed by fixed probe steps (success, new outage, outage past grace); block B draws random sequences (<=20 steps, all points). distinct = (injection point, sequence of (gap class, fault classes seen by the authenticator, verdict)) of completed histories")
-	rep.Assume("requests of one browser session arrive one at a time; virtual time by cookie re-sealing; instants keep >= 30 s from every deadline")
+	rep.Assume("the stack is configured through the documented environment variables (SESSION_TTL_*, ...) and proxy.LoadConfig(); requests of one browser session arrive one at a time; virtual time by cookie re-sealing; instants keep >= 30 s from every deadline")
 	rep.Assume("the grace bound is applied at due checks, as the statement says; requests with no check due are governed by C04")
 
-	ps, err := sut.NewProxyStack(sut.ProxyOpts{Upstreams: []sut.UpstreamSpec{
+	// configured the way the real binary is: every option (the three TTLs in particular) through its
+	// documented environment variable and proxy.LoadConfig() (added after seeded change C05j - a struct
+	// tag "fixed" so that SESSION_TTL_GRACEPERIOD is silently ignored - was missed by a stack whose
+	// Configuration struct was assigned directly)
+	ps, err := sut.NewProxyStack(sut.ProxyOpts{ViaEnv: true, Upstreams: []sut.UpstreamSpec{
 		{Service: "grp", From: "grp.sso.test", AllowedGroups: []string{"eng", "ops"}},
 	}})
 	if err != nil {
